@@ -276,6 +276,8 @@ def gen_number(rng, kind, scale):
 
 
 def run(ctx):
+    from .. import wtests
+    wtests.run(ctx)
     install(ctx)
     rng = ctx.rng
     # (a) exhaustive small grid
@@ -296,6 +298,9 @@ def run(ctx):
     n = ctx.budget(60_000, 1_500_000)
     done = 0
     while done < n and ctx.alive():
+        if rng.random() < 0.004:
+            from .. import noise
+            noise.burst(ctx, rng, exclude=('limits', 'clip'))
         if rng.random() < 0.005:
             from ..gen_stepper import failed_call
             from plotink import plot_utils as _pu
@@ -383,6 +388,7 @@ def run(ctx):
     for mon in ("monitor:checkLimits evaluated", "monitor:constrainLimits evaluated",
                 "monitor:checkLimitsTol evaluated", "monitor:point_in_bounds evaluated"):
         ctx.need(mon, 20_000)
+    ctx.need("history: after calls to other library functions", 150)
     contracts.uninstall_all()
 
 
